@@ -191,6 +191,9 @@ def obligations(tier):
     for ob in c01.sim_obligations(tier):
         ob.name = ob.name.replace("C01.b", "C02.e")
         obs.append(ob)
+    # the simulator's event heap with a symbolic order of the events of different trials, one trial stopped in between
+    from props import c10
+    obs.append(c10.heap_obligation("C02", "C02.f"))
     return obs
 
 
